@@ -680,3 +680,220 @@ Proof.
   destruct (dns_process_cases _ _ _ _ _ Ep) as [->|(txid & rc & qs' & Hh1 & _)]; [reflexivity|].
   destruct C as [C|C]; [contradiction|]. exfalso. exact (C txid Hh1).
 Qed.
+
+(* ====================================================================================== *)
+(* Part D: histories -- a completed slot comes from a matching datagram                   *)
+(* ====================================================================================== *)
+
+Lemma nth_error_set_nth : forall A (l : list A) i x h,
+  nth_error (dns_set_nth l i x) h =
+  if Nat.eqb h i then (match nth_error l h with Some _ => Some x | None => None end) else nth_error l h.
+Proof.
+  induction l as [|y l IH]; intros i x h.
+  - destruct i; simpl; destruct h; simpl; try reflexivity; destruct (Nat.eqb _ _); reflexivity.
+  - destruct i as [|i]; destruct h as [|h]; simpl; try reflexivity. apply IH.
+Qed.
+
+Lemma length_set_nth : forall A (l : list A) i x, length (dns_set_nth l i x) = length l.
+Proof. induction l; intros [|i] x; simpl; auto. Qed.
+
+Definition is_completed (o : option (option dns_qstate)) (addrs : list (list Z)) : Prop :=
+  o = Some (Some (QCompleted addrs)).
+
+(* start_query_raw never produces a completed slot *)
+Lemma dns_start_query_raw_completed : forall cfg s raw t m txid port s' r h addrs,
+  dns_start_query_raw cfg s raw t m txid port = (s', r) ->
+  nth_error (ds_queries s') h = Some (Some (QCompleted addrs)) ->
+  nth_error (ds_queries s) h = Some (Some (QCompleted addrs)).
+Proof.
+  intros cfg s raw t m txid port s' r h addrs H Hh. unfold dns_start_query_raw, dns_find_free_query in H.
+  assert (App : forall l : list (option dns_qstate), nth_error (l ++ [None]) h = Some (Some (QCompleted addrs)) ->
+                nth_error l h = Some (Some (QCompleted addrs))).
+  { intros l Hl. destruct (Nat.lt_ge_cases h (length l)) as [L|L].
+    - rewrite nth_error_app1 in Hl by assumption. exact Hl.
+    - rewrite nth_error_app2 in Hl by assumption. destruct (h - length l)%nat as [|[|k]]; simpl in Hl; discriminate. }
+  destruct (dns_find_none (ds_queries s) 0) as [i|].
+  - destruct (wdns_len raw >? c_max_name cfg); inv H; [assumption|].
+    cbn [dns_set_slot ds_queries] in Hh. rewrite nth_error_set_nth in Hh.
+    destruct (Nat.eqb h i); [|assumption]. destruct (nth_error (ds_queries s) h); discriminate.
+  - destruct (ds_owned s).
+    + destruct (wdns_len raw >? c_max_name cfg); inv H; cbn [dns_set_slot ds_queries] in Hh.
+      * apply App; assumption.
+      * rewrite nth_error_set_nth in Hh. destruct (Nat.eqb h (length (ds_queries s))).
+        -- destruct (nth_error (ds_queries s ++ [None]) h); discriminate.
+        -- apply App; assumption.
+    + inv H. assumption.
+Qed.
+
+Lemma dns_start_query_completed : forall cfg s name t txid port s' r h addrs,
+  dns_start_query cfg s name t txid port = (s', r) ->
+  nth_error (ds_queries s') h = Some (Some (QCompleted addrs)) ->
+  nth_error (ds_queries s) h = Some (Some (QCompleted addrs)).
+Proof.
+  intros cfg s name t txid port s' r h addrs H Hh. unfold dns_start_query in H.
+  destruct name as [|c name]; [inv H; assumption|].
+  destruct (dns_encode_labels _ _ _); try (inv H; assumption).
+  destruct (dns_vec_push _ _ _); [|inv H; assumption].
+  eapply dns_start_query_raw_completed; eauto.
+Qed.
+
+Lemma dns_set_none_completed : forall s i h addrs,
+  nth_error (ds_queries (dns_set_slot s i None)) h = Some (Some (QCompleted addrs)) ->
+  nth_error (ds_queries s) h = Some (Some (QCompleted addrs)).
+Proof.
+  intros s i h addrs H. cbn [dns_set_slot ds_queries] in H. rewrite nth_error_set_nth in H.
+  destruct (Nat.eqb h i); [|assumption]. destruct (nth_error (ds_queries s) h); discriminate.
+Qed.
+
+Lemma dns_get_query_result_completed : forall s i s' r h addrs,
+  dns_get_query_result s i = (s', r) ->
+  nth_error (ds_queries s') h = Some (Some (QCompleted addrs)) ->
+  nth_error (ds_queries s) h = Some (Some (QCompleted addrs)).
+Proof.
+  intros s i s' r h addrs H Hh. unfold dns_get_query_result in H.
+  destruct (nth_error (ds_queries s) i) as [[[pq|a|]|]|]; inv H; try assumption;
+    eapply dns_set_none_completed; eauto.
+Qed.
+
+Lemma dns_cancel_query_completed : forall s i s' r h addrs,
+  dns_cancel_query s i = (s', r) ->
+  nth_error (ds_queries s') h = Some (Some (QCompleted addrs)) ->
+  nth_error (ds_queries s) h = Some (Some (QCompleted addrs)).
+Proof.
+  intros s i s' r h addrs H Hh. unfold dns_cancel_query in H.
+  destruct (nth_error (ds_queries s) i) as [[q|]|]; inv H; try assumption;
+    eapply dns_set_none_completed; eauto.
+Qed.
+
+(* dispatch turns pending slots into pending or failed ones and touches nothing else *)
+Lemma dns_dispatch_query_not_completed : forall cfg servers now e pq r,
+  dns_dispatch_query cfg servers now e pq = Ok r ->
+  match r with
+  | DqContinue st | DqEmit st _ | DqEmitErr st => forall addrs, st <> QCompleted addrs
+  end.
+Proof.
+  intros cfg servers now e pq r H. unfold dns_dispatch_query in H.
+  repeat match type of H with
+  | (if ?c then _ else _) = _ => destruct c
+  | match ?x with _ => _ end = _ => destruct x
+  | obind ?m _ = _ => destruct m; cbn [obind] in H
+  end; try discriminate; inv H; intros; discriminate.
+Qed.
+
+Lemma dns_dispatch_slots_nth : forall cfg servers now e qs qs' res,
+  dns_dispatch_slots cfg servers now e qs = Ok (qs', res) ->
+  forall h,
+  match nth_error qs h with
+  | None => nth_error qs' h = None
+  | Some (Some (QPending pq)) =>
+      exists st, nth_error qs' h = Some (Some st) /\ forall addrs, st <> QCompleted addrs
+  | Some o => nth_error qs' h = Some o
+  end.
+Proof.
+  induction qs as [|q rest IH]; intros qs' res H h; cbn [dns_dispatch_slots] in H.
+  { inv H. destruct h; reflexivity. }
+  destruct q as [[pq|addrs|]|].
+  - destruct (dns_dispatch_query cfg servers now e pq) as [r| |] eqn:Eq; cbn [obind] in H; try discriminate.
+    pose proof (dns_dispatch_query_not_completed _ _ _ _ _ _ Eq) as NC.
+    destruct r as [st|st tx|st].
+    + destruct (dns_dispatch_slots cfg servers now e rest) as [[rest' res']| |] eqn:Er; cbn [obind] in H; inv H.
+      destruct h as [|h']; cbn [nth_error]; [eauto|]. exact (IH rest' res eq_refl h').
+    + inv H. destruct h as [|h']; cbn [nth_error]; [eauto|].
+      destruct (nth_error rest h') as [[[pq'|a|]|]|]; auto. exists (QPending pq'). split; [reflexivity|discriminate].
+    + inv H. destruct h as [|h']; cbn [nth_error]; [eauto|].
+      destruct (nth_error rest h') as [[[pq'|a|]|]|]; auto. exists (QPending pq'). split; [reflexivity|discriminate].
+  - destruct (dns_dispatch_slots cfg servers now e rest) as [[rest' res']| |] eqn:Er; cbn [obind] in H; inv H.
+    destruct h as [|h']; cbn [nth_error]; [reflexivity|]. exact (IH rest' res eq_refl h').
+  - destruct (dns_dispatch_slots cfg servers now e rest) as [[rest' res']| |] eqn:Er; cbn [obind] in H; inv H.
+    destruct h as [|h']; cbn [nth_error]; [reflexivity|]. exact (IH rest' res eq_refl h').
+  - destruct (dns_dispatch_slots cfg servers now e rest) as [[rest' res']| |] eqn:Er; cbn [obind] in H; inv H.
+    destruct h as [|h']; cbn [nth_error]; [reflexivity|]. exact (IH rest' res eq_refl h').
+Qed.
+
+Lemma dns_dispatch_completed : forall cfg s now e s' res h addrs,
+  dns_dispatch cfg s now e = Ok (s', res) ->
+  nth_error (ds_queries s') h = Some (Some (QCompleted addrs)) ->
+  nth_error (ds_queries s) h = Some (Some (QCompleted addrs)).
+Proof.
+  intros cfg s now e s' res h addrs H Hh. unfold dns_dispatch in H.
+  destruct (dns_dispatch_slots cfg (ds_servers s) now e (ds_queries s)) as [[qs r]| |] eqn:E; cbn [obind] in H; inv H.
+  cbn [ds_queries] in Hh.
+  pose proof (dns_dispatch_slots_nth _ _ _ _ _ _ _ E h) as N.
+  destruct (nth_error (ds_queries s) h) as [[[pq|a|]|]|]; try congruence.
+  destruct N as (st & N1 & N2). rewrite N1 in Hh. inv Hh. exfalso. eapply N2; reflexivity.
+Qed.
+
+Lemma dns_poll_go_completed : forall cfg fuel s now acc s' txs hang h addrs,
+  dns_poll_go cfg fuel s now acc = Ok (s', txs, hang) ->
+  nth_error (ds_queries s') h = Some (Some (QCompleted addrs)) ->
+  nth_error (ds_queries s) h = Some (Some (QCompleted addrs)).
+Proof.
+  induction fuel as [|fuel IH]; intros s now acc s' txs hang h addrs H Hh; cbn [dns_poll_go] in H.
+  { inv H. assumption. }
+  destruct (dns_dispatch cfg s now true) as [[s1 r]| |] eqn:E; cbn [obind] in H; try discriminate.
+  destruct r as [|tx|].
+  - inv H. eapply dns_dispatch_completed; eauto.
+  - eapply dns_dispatch_completed; eauto.
+  - inv H. eapply dns_dispatch_completed; eauto.
+Qed.
+
+Definition ev_ok (ev : dns_event) : Prop :=
+  match ev with
+  | EvRsp _ _ _ pkt => Forall wdns_is_byte pkt
+  | _ => True
+  end.
+
+(* one event: a slot is completed afterwards only if it was already, or the event is a datagram
+   that satisfies every clause for the pending query in that slot *)
+Lemma dns_step_completed : forall cfg s ev h addrs,
+  ev_ok ev ->
+  nth_error (ds_queries (fst (dns_step cfg s ev))) h = Some (Some (QCompleted addrs)) ->
+  nth_error (ds_queries s) h = Some (Some (QCompleted addrs)) \/
+  exists src sp dp pkt pq,
+    ev = EvRsp src sp dp pkt /\ nth_error (ds_queries s) h = Some (Some (QPending pq)) /\
+    dns_response_matches cfg s pq src sp dp pkt addrs.
+Proof.
+  intros cfg s ev h addrs Hev H. destruct ev as [name t txid port|raw t m txid port|i|i|now|src sp dp pkt]; cbn [dns_step] in H.
+  - left. destruct (dns_start_query cfg s name t txid port) as [s' r] eqn:E. eapply dns_start_query_completed; eauto.
+  - left. destruct (dns_start_query_raw cfg s raw t m txid port) as [s' r] eqn:E. eapply dns_start_query_raw_completed; eauto.
+  - left. destruct (dns_get_query_result s i) as [s' r] eqn:E. eapply dns_get_query_result_completed; eauto.
+  - left. destruct (dns_cancel_query s i) as [s' r] eqn:E. eapply dns_cancel_query_completed; eauto.
+  - left. destruct (dns_poll cfg s now) as [[[s' txs] hang]| |] eqn:E; cbn [fst] in H; try assumption.
+    unfold dns_poll in E. eapply dns_poll_go_completed; eauto.
+  - destruct (dns_ingress cfg s src sp dp pkt) as [[s' acc]| |] eqn:E; cbn [fst] in H; auto.
+    destruct (nth_error (ds_queries s) h) as [[[pq|a|]|]|] eqn:Hh.
+    + right. destruct (dns_ingress_slot _ _ _ _ _ _ _ _ _ _ E Hh) as [A|[(A1 & A2 & A3) [[B C]|[B (st & C & D)]]]]; try congruence.
+      rewrite D in H. assert (Est : st = QCompleted addrs) by congruence. rewrite Est in C.
+      exists src, sp, dp, pkt, pq. split; [reflexivity|]. split; [reflexivity|].
+      split; [exact A1|]. split; [exact A2|]. split; [exact A3|].
+      apply dns_process_query_completed; [exact Hev|exact C].
+    + left. rewrite (dns_ingress_other _ _ _ _ _ _ _ _ h E) in H; [congruence|]. intros pq; congruence.
+    + left. rewrite (dns_ingress_other _ _ _ _ _ _ _ _ h E) in H; [congruence|]. intros pq; congruence.
+    + left. rewrite (dns_ingress_other _ _ _ _ _ _ _ _ h E) in H; [congruence|]. intros pq; congruence.
+    + left. rewrite (dns_ingress_other _ _ _ _ _ _ _ _ h E) in H; [congruence|]. intros pq; congruence.
+Qed.
+
+(* every history: completed_implies_match *)
+Lemma dns_run_completed : forall cfg evs s h addrs,
+  Forall ev_ok evs ->
+  nth_error (ds_queries (dns_run cfg s evs)) h = Some (Some (QCompleted addrs)) ->
+  nth_error (ds_queries s) h = Some (Some (QCompleted addrs)) \/
+  exists evs1 src sp dp pkt evs2 pq,
+    evs = evs1 ++ EvRsp src sp dp pkt :: evs2 /\
+    nth_error (ds_queries (dns_run cfg s evs1)) h = Some (Some (QPending pq)) /\
+    dns_response_matches cfg (dns_run cfg s evs1) pq src sp dp pkt addrs.
+Proof.
+  induction evs as [|ev evs IH]; intros s h addrs Hok H; cbn [dns_run] in H.
+  { left; assumption. }
+  inv Hok. destruct (IH _ _ _ H3 H) as [A|(evs1 & src & sp & dp & pkt & evs2 & pq & E1 & E2 & E3)].
+  - destruct (dns_step_completed _ _ _ _ _ H2 A) as [B|(src & sp & dp & pkt & pq & B1 & B2 & B3)]; [left; assumption|].
+    right. exists [], src, sp, dp, pkt, evs, pq. subst ev. split; [reflexivity|]. split; assumption.
+  - right. exists (ev :: evs1), src, sp, dp, pkt, evs2, pq. subst evs. split; [reflexivity|]. split; assumption.
+Qed.
+
+Lemma dns_new_no_completed : forall cfg servers n owned h addrs,
+  nth_error (ds_queries (dns_new cfg servers n owned)) h <> Some (Some (QCompleted addrs)).
+Proof.
+  intros. unfold dns_new. cbn [ds_queries]. intro H.
+  apply nth_error_In in H. apply repeat_spec in H. discriminate.
+Qed.
